@@ -1,6 +1,6 @@
 (** C20 — regular-expression matching agrees with SRFI 115: property theorems only. *)
 From ChibiV Require Import C20.Re C20.Proofs C20.FoldIdem C20.SubsNest.
-From ChibiV Require Import C20.Nfa C20.NfaOrd C20.NfaSem C20.NfaCount C20.NfaBounded C20.NfaThompson C20.NfaRun C20.NfaMain C20.NfaSpan.
+From ChibiV Require Import C20.Nfa C20.NfaOrd C20.NfaSem C20.NfaCount C20.NfaBounded C20.NfaThompson C20.NfaRun C20.NfaMain C20.NfaSpan C20.NfaSubsDefs C20.NfaSubs C20.NfaSubsFinal C20.NfaAnyOrder C20.NfaAnyOrderSpan C20.NfaAnyOrderSubs.
 
 (** the derivative of a core expression denotes the left quotient of its language *)
 Theorem deriv_correct : forall r p c s n, LR (deriv p c r) (Some c) s n <-> LR r p (c :: s) n.
@@ -183,16 +183,32 @@ Theorem nfa_trace_ends_in_result : forall search N s k i s1 acc,
 Proof. exact loop_tr_last. Qed.
 Print Assumptions nfa_trace_ends_in_result.
 
-(** _partial: the fragment is the finite domain [small_xsres] x [small_strings] of C20/NfaBounded.v (870 SREs: every SRE
-    of depth <= 1 over 15 atoms, 15 unary and 2 binary forms, and the family "loop around a submatch around an operator";
-    44 strings: all of length <= 3 over {a, b, newline} and 4 with upper-case letters), decided by computation.
-    Full statement: for all x s (with wf_x), no domain hypothesis: every set of spans the simulation reports passes the exact
-    validator [check_spans], i.e. (submatch_span_check_sound) each submatch span delimits text in the language of its own body
-    and lies inside the nearest enclosing non-repeated submatch. *)
-Theorem nfa_submatch_spans_valid_partial : forall x s b spans, In x small_xsres -> In s small_strings ->
+(** every set of spans the modelled engine reports -- regexp-matches (b = false) or regexp-search (b = true) -- passes the exact
+    validator [check_spans]: span 0 is in the language, one entry per submatch, every reported submatch span delimits text in
+    the language of its own body (with its case flag, in its context) and lies inside the nearest enclosing non-repeated
+    submatch (submatch_span_check_sound gives this reading).  For every wf SRE, every string: the merging of searchers, the
+    non-greedy-left rule and stale spans of earlier loop iterations never produce an invalid span *)
+Theorem nfa_submatch_spans_valid : forall x s b spans, wf_x x = true ->
   nfa_spans b x s = Some spans -> check_spans (to_sre false x) s spans = true.
-Proof. exact nfa_submatch_spans_valid_small. Qed.
-Print Assumptions nfa_submatch_spans_valid_partial.
+Proof. exact NfaSubsFinal.nfa_submatch_spans_valid. Qed.
+Print Assumptions nfa_submatch_spans_valid.
+
+(** the vector the simulation returns is the trace (update_match folded over the states entered) of ONE accepting path of the
+    graph: merging keeps one of two whole vectors, never mixes them (any state table) *)
+Theorem nfa_vector_is_path_trace : forall b N s m, run b N s = Some (Some m) ->
+  exists i0 l qa j,
+    (b = true \/ i0 = 0) /\ (b = true \/ j = length s) /\ (i0 <= j)%nat /\ (j <= length s)%nat /\
+    chain (n_tb N) s (n_start N, i0) l /\ last l (n_start N, i0) = (qa, j) /\ is_accept (n_tb N) qa /\
+    m = trace (n_tb N) (repeat None (n_nsave N)) ((n_start N, i0) :: l).
+Proof. exact run_vector_is_trace. Qed.
+Print Assumptions nfa_vector_is_path_trace.
+
+(** span 0 of both front ends is in the language; regexp-matches reports the whole string *)
+Theorem nfa_span0_in_language : forall x s b m, wf_x x = true -> run b (compile_top x) s = Some (Some m) ->
+  exists i j, getm m 0 = Some i /\ getm m 1 = Some j /\ in_lang false (to_sre false x) s i j /\
+              (b = false -> i = 0 /\ j = length s).
+Proof. exact nfa_span0_valid. Qed.
+Print Assumptions nfa_span0_in_language.
 
 (** the span regexp-search reports (slots 0 and 1 of the accept's vector after the posse simulation with merging by
     regexp-match>=? and the early exit) is the POSIX leftmost-longest one: in the language, no match starts further left, none
@@ -206,3 +222,51 @@ Theorem nfa_search_span_leftmost_longest : forall x s, wf_x x = true -> ngs x = 
   end.
 Proof. exact NfaSpan.nfa_search_span_leftmost_longest. Qed.
 Print Assumptions nfa_search_span_leftmost_longest.
+
+(* ------------------------------------------------------------------------------------------ *)
+(** the same four theorems for EVERY order in which the posses are walked.  regexp-advance! walks searchers1 in hash-table
+    order (regexp.scm:495 "non-deterministic from hash order") and the vectors kept can depend on it; [run_ord ords] is the run
+    with the order of every step given by [ords] (any lists: absent, missing and repeated state ids allowed).  The tie replays
+    the order observed in the running code through exactly this function ([nfa_replayed_trace_is_run_ord]). *)
+Theorem nfa_accepts_iff_language_any_order : forall ords x s, wf_x x = true ->
+  ((exists m, run_ord ords false (compile_top x) s = Some (Some m)) <-> L false (to_sre false x) None s None).
+Proof. exact NfaAnyOrder.nfa_accepts_iff_language_any_order. Qed.
+Print Assumptions nfa_accepts_iff_language_any_order.
+
+Theorem nfa_search_iff_substring_any_order : forall ords x s, wf_x x = true ->
+  ((exists m, run_ord ords true (compile_top x) s = Some (Some m)) <-> exists i j, in_lang false (to_sre false x) s i j).
+Proof. exact NfaAnyOrder.nfa_search_iff_substring_any_order. Qed.
+Print Assumptions nfa_search_iff_substring_any_order.
+
+Theorem nfa_search_span_leftmost_longest_any_order : forall ords x s, wf_x x = true -> ngs x = false ->
+  match NfaSpan.span0 (nfa_spans_ord ords true x s) with
+  | Some (i, j) => in_lang false (to_sre false x) s i j /\
+                   forall i' j', in_lang false (to_sre false x) s i' j' -> (i < i')%nat \/ (i = i' /\ (j' <= j)%nat)
+  | None => forall i j, ~ in_lang false (to_sre false x) s i j
+  end.
+Proof. exact NfaAnyOrderSpan.nfa_search_span_leftmost_longest_any_order. Qed.
+Print Assumptions nfa_search_span_leftmost_longest_any_order.
+
+Theorem nfa_submatch_spans_valid_any_order : forall ords x s b spans, wf_x x = true ->
+  nfa_spans_ord ords b x s = Some spans -> check_spans (to_sre false x) s spans = true.
+Proof. exact NfaAnyOrderSubs.nfa_submatch_spans_valid_any_order. Qed.
+Print Assumptions nfa_submatch_spans_valid_any_order.
+
+Theorem nfa_run_any_order_total : forall ords search N s, run_ord ords search N s <> None.
+Proof. exact run_ord_total. Qed.
+Print Assumptions nfa_run_any_order_total.
+
+(** what the tie replays and compares step by step ([loop_tr_ord] with the observed orders, its result by [result_of]) is [run_ord] *)
+Theorem nfa_replayed_trace_is_run_ord : forall ords search N s,
+  option_map (result_of search s) (loop_tr_ord ords search N s (length s) 0 [] None) = run_ord ords search N s.
+Proof. exact loop_tr_ord_result. Qed.
+Print Assumptions nfa_replayed_trace_is_run_ord.
+
+(** independent cross-check by computation (C20/NfaBounded.v): on 870 SREs (every SRE of depth <= 1 over 15 atoms, 15 unary and
+    2 binary forms, and the family "loop around a submatch around an operator") x 44 strings (all of length <= 3 over
+    {a, b, newline}, 4 with upper-case letters) the modelled engine and the derivative oracle give the same booleans, the
+    engine's spans pass check_spans, and for SREs without non-greedy operators span 0 = search_span *)
+Theorem nfa_engine_agrees_with_oracle_small_domain :
+  forallb (fun x => forallb (check_one x) small_strings) small_xsres = true.
+Proof. exact small_domain_checked. Qed.
+Print Assumptions nfa_engine_agrees_with_oracle_small_domain.
